@@ -84,6 +84,7 @@ func (fs faultsim) runFaulted(c *Case, dir string, target int, plan *sim.FaultPl
 	guards := ActiveGuards()
 	e := work.NewExec(path, c.Prog.Cfg)
 	e.FileChecks = true
+	e.RollbackAfterFailedCommit = c.Run%4 >= 2 // half of the runs use the `defer tx.Rollback()` idiom
 	disk.Veto = func(op string, afterMeta bool) bool {
 		// F6 (listed known finding): final sync fails while a reader is open
 		if guards.NoReaderAcrossFault && c.Params["no_guard"] == 0 && op == "fdatasync" && afterMeta && len(e.Readers) > 0 {
